@@ -831,6 +831,7 @@ def run_real(case):
                 size = (SIZES[op[1] % len(SIZES)],)
                 focus = bool(op[2])
                 real_top = top
+                o["on"] = type(top).__name__
                 if op[0] == "rsub":
                     ws = walk(top)
                     top = ws[op[4] % len(ws)]
@@ -1434,6 +1435,7 @@ class C06(core.Check):
                     r = o["rows"]
                     if r[1] != r[2]:
                         inc("observation:rows()!=render().rows() without cache (C11 matter)")
+                        inc("observation:rows()!=render().rows() without cache, widget " + o.get("on", "?"))
                 if "exc" in o and "exc_fresh" in o:
                     inc("render-raised-both:" + o["exc"])
                 elif "exc_fresh" in o:
